@@ -138,17 +138,23 @@ def records_xml(records, namer, sites, xsdp, indent):
         for r in recs:
             t, i, attrs = r
             d = dict(attrs)
-            if t == PROV + "Membership" and i is None and set(d) == {PROV + "collection", PROV + "entity"}:
-                groups.setdefault(d[PROV + "collection"], []).append(d[PROV + "entity"])
+            ty = d.get(PROV + "type")
+            plain = set(d) == {PROV + "collection", PROV + "entity"}
+            typed = set(d) == {PROV + "collection", PROV + "entity", PROV + "type"} and len(attrs) == 3 and \
+                ty[0] == "qn" and not ty[1].startswith(PROV)
+            if t == PROV + "Membership" and i is None and (plain or typed):
+                # memberships of one collection (that carry the same single application type) can share an element
+                groups.setdefault((d[PROV + "collection"], ty if typed else None), []).append(d[PROV + "entity"])
             else:
                 rest.append(r)
         recs = rest
-        for coll, members in groups.items():
+        for (coll, ty), members in groups.items():
             if len(members) > 1 and sites.on("multi-member"):
-                merged.append((coll, members))
+                merged.append((coll, members, ty))
             else:
                 for m in members:
-                    recs.append((PROV + "Membership", None, ((PROV + "collection", coll), (PROV + "entity", m))))
+                    recs.append((PROV + "Membership", None, ((PROV + "collection", coll), (PROV + "entity", m)) + (
+                        ((PROV + "type", ty),) if ty else ())))
     for t, i, attrs in recs:
         attrs = list(attrs)
         el = BASE_ELEMENT[t]
@@ -211,11 +217,14 @@ def records_xml(records, namer, sites, xsdp, indent):
             out.append("%s</prov:%s>" % (indent, el))
         else:
             out.append("%s<prov:%s%s%s%s/>" % (indent, el, idattr, rec_attr, nested))
-    for coll, members in merged:
-        out.append("%s<prov:hadMember>" % indent)
+    for coll, members, ty in merged:
+        on_record = ty is not None and sites.on("xsi-type-on-record")
+        out.append("%s<prov:hadMember%s>" % (indent, " xsi:type=%s" % quoteattr(namer.qname(ty[1])) if on_record else ""))
         out.append("%s  <prov:collection prov:ref=%s/>" % (indent, quoteattr(namer.qname(coll[1]))))
         for m in members:
             out.append("%s  <prov:entity prov:ref=%s/>" % (indent, quoteattr(namer.qname(m[1]))))
+        if ty is not None and not on_record:
+            out.append("%s  <prov:type xsi:type=\"%s:QName\">%s</prov:type>" % (indent, xsdp, namer.qname(ty[1])))
         out.append("%s</prov:hadMember>" % indent)
     return out
 
